@@ -8,6 +8,7 @@ _MODULES = {
     'wiring': 'dst.wiring',
     'struct': 'dst.struct',
     'parallel': 'dst.parallel',
+    'timeline': 'dst.timeline',
 }
 
 # property -> list of (profile, share of the run budget)
@@ -25,6 +26,7 @@ PROPERTY_PROFILES = {
     'C10': [('struct', 1.0)],
     'C11': [('struct', 1.0)],
     'C13': [('parallel', 1.0)],
+    'C19': [('timeline', 1.0)],
     'C12': [('kernel', 0.6), ('steps', 0.2), ('struct', 0.2)],
 }
 
